@@ -64,6 +64,7 @@ type closure struct {
 
 // frame: per-function (or per-inlined-call) symbolic state
 type frame struct {
+	loopKeepExcl map[*ssa.BasicBlock]map[string][]string // loop head -> component -> assigns targets excluded from `keeps old objects`
 	loopKeep map[*ssa.BasicBlock]map[string]string // loop head -> component -> heap version at the head (`keeps old objects`)
 	fn     *ssa.Function
 	c      *Contract
@@ -91,6 +92,8 @@ type frame struct {
 	namedAll   map[string][]namedDef
 	namedAddr  map[string][]namedDef // addressable source variables: name -> address values
 	curBlock   *ssa.BasicBlock
+	rangeSeen  map[*ssa.Range]string // map iteration -> ghost component holding the keys produced so far
+	rangeDom   map[*ssa.Range]string // map iteration -> the map's key set when the iteration began
 }
 
 type deferred struct {
@@ -127,6 +130,8 @@ type Gen struct {
 	funDecl map[string]bool
 	depth  int
 	pristine map[string]bool
+	storedAt map[string][]string
+	refComps map[string]string // reference-valued heap components: field | mem | slicefield
 	assumptions map[string]bool
 	fnName string
 	usedSpecs map[string]bool
@@ -155,7 +160,7 @@ type Gen struct {
 func newGen(w *World, fn *ssa.Function, c *Contract) *Gen {
 	g := &Gen{w: w, top: fn, topC: c, comps: map[string]string{}, entry: map[string]string{}, cur: map[string]string{},
 		kinds: map[string]int{}, dtSeen: map[string]bool{}, prelSeen: map[string]bool{}, funDecl: map[string]bool{},
-		pristine: map[string]bool{}, assumptions: map[string]bool{}, usedSpecs: map[string]bool{}, trustedUsed: map[string]bool{}, inlinedFns: map[string]bool{}, usedLemmas: map[string]bool{}}
+		pristine: map[string]bool{}, storedAt: map[string][]string{}, refComps: map[string]string{}, assumptions: map[string]bool{}, usedSpecs: map[string]bool{}, trustedUsed: map[string]bool{}, inlinedFns: map[string]bool{}, usedLemmas: map[string]bool{}}
 	g.bv = c.Mode != "int"
 	g.abstract = c.Abstract
 	g.nosafety = c.NoSafety
@@ -542,6 +547,19 @@ func (g *Gen) fieldComp(st types.Type, i int) (string, string) {
 	name := "F_" + g.w.typeName(st) + "_" + s.Field(i).Name()
 	so := g.sortOf(s.Field(i).Type())
 	g.comp(name, fmt.Sprintf("(Array Int %s)", so))
+	if isRefType(s.Field(i).Type()) && so == "Int" {
+		g.entryRefsAxiom(name, false)
+		g.refComps[name] = "field"
+	}
+	if _, isSlice := s.Field(i).Type().Underlying().(*types.Slice); isSlice && so == "Slice" {
+		g.refComps[name] = "slicefield"
+		// likewise the backing array of every slice stored in an entry object existed at entry
+		if key := "entryrefs:" + name; !g.prelSeen[key] {
+			g.prelSeen[key] = true
+			e := g.entry[name]
+			g.assumeGlobal(fmt.Sprintf("(forall ((r Int)) (! (and (<= 0 (base (select %s r))) (< (base (select %s r)) %s)) :pattern ((select %s r))))", e, e, refBound, e))
+		}
+	}
 	return name, so
 }
 
@@ -549,7 +567,61 @@ func (g *Gen) memComp(elem types.Type) (string, string) {
 	name := "M_" + g.w.typeName(elem)
 	so := fmt.Sprintf("(Array %s %s)", g.idxSort(), g.sortOf(elem))
 	g.comp(name, fmt.Sprintf("(Array Int %s)", so))
+	if isRefType(elem) && g.sortOf(elem) == "Int" {
+		g.entryRefsAxiom(name, true)
+		g.refComps[name] = "mem"
+	}
 	return name, so
+}
+
+// References held by the heap at a loop head denote objects that existed before the loop head was reached
+// (in this or an earlier iteration; the latter are anonymous after the havoc): they are never the objects the
+// loop body is about to allocate -- neither this function's own allocation sites still to come, nor the
+// ranges reserved for the callees still to be called.
+func (g *Gen) loopHeadRefsAxiom(name, ver string) {
+	kind, ok := g.refComps[name]
+	if !ok {
+		return
+	}
+	before := func(v string) string {
+		if g.nfresh == 0 && g.ncallFresh == 0 {
+			return fmt.Sprintf("(and (<= 0 %s) (< %s %s))", v, v, refBound)
+		}
+		return fmt.Sprintf("(and (<= 0 %s) (not (and (< %d %s) (< %s 1001000000))) (< %s %d000000000000))", v, 1000000000+g.nfresh, v, v, v, 2+g.ncallFresh)
+	}
+	switch kind {
+	case "field":
+		g.assumeGlobal(fmt.Sprintf("(forall ((r Int)) (! %s :pattern ((select %s r))))", before(fmt.Sprintf("(select %s r)", ver)), ver))
+	case "mem":
+		g.assumeGlobal(fmt.Sprintf("(forall ((r Int) (i %s)) (! %s :pattern ((select (select %s r) i))))", g.idxSort(), before(fmt.Sprintf("(select (select %s r) i)", ver)), ver))
+	case "slicefield":
+		g.assumeGlobal(fmt.Sprintf("(forall ((r Int)) (! %s :pattern ((select %s r))))", before(fmt.Sprintf("(base (select %s r))", ver)), ver))
+	}
+}
+
+func isRefType(t types.Type) bool {
+	switch t.Underlying().(type) {
+	case *types.Pointer, *types.Map, *types.Chan:
+		return true
+	}
+	return false
+}
+
+// Every reference stored anywhere in the heap the function starts with denotes nil or an object that
+// existed then (references below refBound): stated once per reference-valued component, for all objects
+// and positions, so that it is also available for the positions a quantified contract clause ranges over.
+func (g *Gen) entryRefsAxiom(name string, mem bool) {
+	key := "entryrefs:" + name
+	if g.prelSeen[key] {
+		return
+	}
+	g.prelSeen[key] = true
+	e := g.entry[name]
+	if mem {
+		g.assumeGlobal(fmt.Sprintf("(forall ((r Int) (i %s)) (! (and (<= 0 (select (select %s r) i)) (< (select (select %s r) i) %s)) :pattern ((select (select %s r) i))))", g.idxSort(), e, e, refBound, e))
+		return
+	}
+	g.assumeGlobal(fmt.Sprintf("(forall ((r Int)) (! (and (<= 0 (select %s r)) (< (select %s r) %s)) :pattern ((select %s r))))", e, e, refBound, e))
 }
 
 func (g *Gen) cellComp(t types.Type) (string, string) {
@@ -645,7 +717,58 @@ func (g *Gen) setComp(c, term string) {
 	// only for components that cannot hold references at all
 	if s := g.comps[c]; g.pristine[old] && !strings.Contains(strings.TrimPrefix(s, "(Array Int "), "Int") && !strings.Contains(s, "Slice") && !strings.Contains(s, "S_") {
 		g.pristine[n] = true
+		return
 	}
+	// otherwise remember at which references this version differs from its pristine ancestor: a load at
+	// any other reference still reads an entry value
+	if prev, ok := g.storedAt[old]; (ok || g.pristine[old]) && len(prev) < 8 {
+		if pre := "(store " + old + " "; strings.HasPrefix(term, pre) {
+			if ref := firstSexpr(term[len(pre):]); ref != "" {
+				g.storedAt[n] = append(append([]string{}, prev...), ref)
+			}
+		}
+	}
+}
+
+// the first balanced s-expression (or atom) of s
+func firstSexpr(s string) string {
+	depth := 0
+	for i, ch := range s {
+		switch ch {
+		case '(':
+			depth++
+		case ')':
+			depth--
+			if depth == 0 {
+				return s[:i+1]
+			}
+			if depth < 0 {
+				return s[:i]
+			}
+		case ' ':
+			if depth == 0 {
+				return s[:i]
+			}
+		}
+	}
+	return ""
+}
+
+// the condition under which a load at reference r from version ver reads a value the function's entry
+// state already held ("" when unknown)
+func (g *Gen) entryValueCond(ver, r string) string {
+	refs, ok := g.storedAt[ver]
+	if !ok || len(refs) == 0 {
+		return ""
+	}
+	var cs []string
+	for _, x := range refs {
+		cs = append(cs, fmt.Sprintf("(not (= %s %s))", r, x))
+	}
+	if len(cs) == 1 {
+		return cs[0]
+	}
+	return "(and " + strings.Join(cs, " ") + ")"
 }
 
 // lvalue for pointer value p (static type *T)
@@ -1561,7 +1684,12 @@ func (g *Gen) loopHead(b *ssa.BasicBlock, k int, li *loopInfo) {
 			}
 			prev := g.heapGet(n)
 			nv := g.fresh("H_"+n+"@loop", s)
-			g.pristine[nv] = true
+			if g.nfresh == 0 && g.ncallFresh == 0 {
+				// nothing was allocated before the loop: every object the loop-head heap can mention is an
+				// entry object (objects of earlier iterations are renamed into that range by the havoc)
+				g.pristine[nv] = true
+			}
+			g.loopHeadRefsAxiom(n, nv)
 			g.cur[n] = nv
 			inAssigns := false
 			if lc.KeepsOld && fr.c != nil {
@@ -1573,7 +1701,7 @@ func (g *Gen) loopHead(b *ssa.BasicBlock, k int, li *loopInfo) {
 					}
 				}
 			}
-			if lc.KeepsOld && !inAssigns && strings.HasPrefix(s, "(Array Int ") && !strings.HasPrefix(n, "GH_") && !strings.HasPrefix(n, "GS_") {
+			if lc.KeepsOld && !inAssigns && strings.HasPrefix(s, "(Array Int ") && !strings.HasPrefix(n, "GH_") && !strings.HasPrefix(n, "GS_") && !strings.HasPrefix(n, "L_") {
 				// `keeps old objects`: assumed here relative to the heap before the loop, proved at every back edge
 				g.assumeAlways(fmt.Sprintf("(forall ((r Int)) (! (=> (and (<= 0 r) (< r %s)) (= (select %s r) (select %s r))) :pattern ((select %s r))))", refBound, nv, prev, nv))
 				if fr.loopKeep == nil {
@@ -1583,6 +1711,30 @@ func (g *Gen) loopHead(b *ssa.BasicBlock, k int, li *loopInfo) {
 					fr.loopKeep[b] = map[string]string{}
 				}
 				fr.loopKeep[b][n] = nv
+			} else if refs, whole := g.loopFrameTargets(n); lc.KeepsOld && inAssigns && !whole && strings.HasPrefix(s, "(Array Int ") && !strings.HasPrefix(n, "GH_") && !strings.HasPrefix(n, "GS_") && !strings.HasPrefix(n, "L_") {
+				// a component the function may write: `keeps old objects` then means the function's own frame --
+				// objects of the caller other than the `assigns` targets (evaluated at function entry) keep
+				// their contents in the loop; assumed here relative to the heap before the loop, proved at
+				// every back edge
+				conds := []string{"(<= 0 r)", fmt.Sprintf("(< r %s)", refBound)}
+				for _, t := range refs {
+					conds = append(conds, fmt.Sprintf("(not (= r %s))", t))
+				}
+				g.assumeAlways(fmt.Sprintf("(forall ((r Int)) (! (=> (and %s) (= (select %s r) (select %s r))) :pattern ((select %s r))))", strings.Join(conds, " "), nv, prev, nv))
+				if fr.loopKeep == nil {
+					fr.loopKeep = map[*ssa.BasicBlock]map[string]string{}
+				}
+				if fr.loopKeep[b] == nil {
+					fr.loopKeep[b] = map[string]string{}
+				}
+				fr.loopKeep[b][n] = nv
+				if fr.loopKeepExcl == nil {
+					fr.loopKeepExcl = map[*ssa.BasicBlock]map[string][]string{}
+				}
+				if fr.loopKeepExcl[b] == nil {
+					fr.loopKeepExcl[b] = map[string][]string{}
+				}
+				fr.loopKeepExcl[b][n] = refs
 			} else if g.lastFreshOnly[n] && strings.HasPrefix(s, "(Array Int ") {
 				// every write to this component in the loop body goes to an object allocated in the body:
 				// the objects that existed before the loop keep their contents
@@ -1643,7 +1795,11 @@ func (g *Gen) backEdgeObs(b *ssa.BasicBlock, li *loopInfo) {
 		}
 		for _, n := range sortedKeys(fr.loopKeep[s]) {
 			sk := g.fresh("keep_r", "Int")
-			g.ob(fmt.Sprintf("loop%d-keeps-old", k), n, fmt.Sprintf("(=> (and (< 0 %s) (< %s %s)) (= (select %s %s) (select %s %s)))", sk, sk, refBound, g.heapGet(n), sk, fr.loopKeep[s][n], sk), "objects that existed at function entry keep their "+n+" contents in the loop body")
+			excl := ""
+			for _, t := range fr.loopKeepExcl[s][n] {
+				excl += fmt.Sprintf(" (not (= %s %s))", sk, t)
+			}
+			g.ob(fmt.Sprintf("loop%d-keeps-old", k), n, fmt.Sprintf("(=> (and (< 0 %s) (< %s %s)%s) (= (select %s %s) (select %s %s)))", sk, sk, refBound, excl, g.heapGet(n), sk, fr.loopKeep[s][n], sk), "objects that existed at function entry (other than the assigns targets) keep their "+n+" contents in the loop body")
 		}
 		if lc.Decreases != nil {
 			d := g.trans(lc.Decreases, env)
@@ -1785,9 +1941,25 @@ func (g *Gen) modifiedIn(body map[*ssa.BasicBlock]bool) map[string]bool {
 						}
 					}
 				case *ssa.MapUpdate:
+					if depth == 0 && valueOutside(x.Map, body) {
+						if _, have := g.fr.val[x.Map]; have || isParam(x.Map) {
+							// the map written is fixed before the loop: only its own rows are unknown at the head
+							for _, n := range g.mapComps(x.Map.Type()) {
+								precise[n] = append(precise[n], g.term(x.Map))
+							}
+							continue
+						}
+					}
 					for _, n := range g.mapComps(x.Map.Type()) {
 						m[n] = true
 						oldw[n] = true
+					}
+				case *ssa.Next:
+					// the ghost set of keys a map iteration has produced so far
+					if rg, ok := x.Iter.(*ssa.Range); ok && depth == 0 {
+						if n, ok := g.fr.rangeSeen[rg]; ok {
+							m[n] = true
+						}
 					}
 				case ssa.CallInstruction:
 					cc := x.Common()
@@ -1882,6 +2054,45 @@ func (g *Gen) modifiedIn(body map[*ssa.BasicBlock]bool) map[string]bool {
 		}
 	}
 	return m
+}
+
+// the references of the function's `assigns` targets in component n, evaluated at function entry
+func (g *Gen) loopFrameTargets(n string) (refs []string, whole bool) {
+	c := g.fr.c
+	if c == nil || c.AssignsAll {
+		return nil, true
+	}
+	defer func() {
+		if r := recover(); r != nil {
+			if _, ok := r.(transErr); ok {
+				refs, whole = nil, true
+				return
+			}
+			panic(r)
+		}
+	}()
+	env := g.contractEnv()
+	penv := &TEnv{g: g, vars: env.vars, pkg: env.pkg, oldEntry: true, inOld: true}
+	for _, t := range g.assignTargets(c, penv) {
+		if t.comp != n {
+			continue
+		}
+		if t.whole || t.ref == "" {
+			return nil, true
+		}
+		refs = append(refs, t.ref)
+	}
+	return refs, false
+}
+
+func valueOutside(v ssa.Value, body map[*ssa.BasicBlock]bool) bool {
+	switch x := v.(type) {
+	case *ssa.Parameter, *ssa.Const, *ssa.Global, *ssa.FreeVar:
+		return true
+	case ssa.Instruction:
+		return !body[x.Block()]
+	}
+	return false
 }
 
 // the object written through addr is one allocated (escaping Alloc) inside the loop body itself
